@@ -32,7 +32,7 @@ def main():
         tally[status] = tally.get(status, 0) + 1
         lines.append("%-14s %-12s applies=%s suite=[%s] checks=%s" % (name, status, r.get("applies", True), r.get("suite"), {k: ("caught" if v[0] else "quiet") for k, v in r["checks"].items()}))
     with open(os.path.join(VERIF, "seeded", "summary.txt"), "w", encoding="utf-8") as f:
-        f.write("%d seeded changes (rounds 1-9, a-n per property), re-evaluated %s, each in a private copy of /verif: %s\n\n" % (len(seeds), label, tally))
+        f.write("%d seeded changes (rounds 1-10, a-o per property), re-evaluated %s, each in a private copy of /verif: %s\n\n" % (len(seeds), label, tally))
         f.write("\n".join(lines) + "\n")
     hl, quiet, nofail, withinput = [], 0, 0, 0
     for name in sorted(harmless):
